@@ -95,13 +95,13 @@ def n1(prog, ctx):
                                 elif isinstance(t_, ast.Name) and v.startswith("TranscriptModelType."):
                                     type_vars.add(t_.id)
         if not blocks:
-            ctx.fail("N1", f, q, "suffix/type", "no id-suffix / model-type assignments found")
+            ctx.undecided("N1", f, q, "no id-suffix / model-type assignments found (the label is decided somewhere else)")
             continue
         for key, d in blocks.items():
             n += 1
             if "suffix" not in d or "type" not in d:
                 st = (d.get("suffix") or d.get("type"))[0]
-                ctx.fail("N1", st, q, src(st), "id suffix and model type are not assigned together in one branch")
+                ctx.undecided("N1", st, q, "id suffix and model type are not assigned together in one branch: %s" % src(st)[:80])
                 continue
             (s_st, suf), (t_st, typ) = d["suffix"], d["type"]
             if PAIR.get(suf) != typ:
@@ -147,7 +147,7 @@ def n1(prog, ctx):
             id_names = {x.id for x in ast.walk(b_["transcript_id"]) if isinstance(x, ast.Name)} if "transcript_id" in b_ else set()
             ty = b_.get("transcript_type")
             if not (id_names & suffix_vars) or not (isinstance(ty, ast.Name) and ty.id in type_vars):
-                ctx.fail("N1", c, q, src(c)[:100], "TranscriptModel is not built from the id_suffix / transcript_type decided above")
+                ctx.undecided("N1", c, q, "TranscriptModel is not built from the id_suffix / transcript_type variables decided above: %s" % src(c)[:80])
             else:
                 ctx.ok("N1", "%s:%d" % (GMC, c.lineno), "TranscriptModel(id + id_suffix, ..., transcript_type)")
             if "exon_blocks" in b_:
@@ -162,7 +162,9 @@ def n1(prog, ctx):
                     ex += [st for st in walk_no_nested(f) if isinstance(st, ast.Assign) and src(st.targets[0]) == ea.id]
                 else:
                     ex.append(ast.Assign(targets=[ast.Name(id="_", ctx=ast.Store())], value=ea))
-            if len(paths) != 1 or len(ip) != 1 or src(ip[0].value) not in paths or len(ex) != 1 or not any(p in src(ex[0].value) for p in paths):
+            if not paths:
+                ctx.undecided("N1", f, q, "the path tested against the annotation could not be identified")
+            elif len(paths) != 1 or len(ip) != 1 or src(ip[0].value) not in paths or len(ex) != 1 or not any(p in src(ex[0].value) for p in paths):
                 ctx.fail("N1", f, q, "intron path", "the path tested against the annotation (%s) is not the one the model's exons and "
                          "intron_path are built from" % sorted(paths))
             else:
@@ -214,7 +216,9 @@ def n1(prog, ctx):
         ctx.fail("N3", f, f._qualname, "known-chain test", "no test of the path against known_isoforms_in_graph remains (known intron "
                  "chains would be reported as novel transcripts)")
     for c in tests:
-        if src(c.left) not in paths:
+        if not paths:
+            ctx.undecided("N3", c, f._qualname, "the path tested against the annotation could not be identified (N1 undecided)")
+        elif src(c.left) not in paths:
             ctx.fail("N3", c, f._qualname, src(c), "known-chain suppression looks up %s, but the table is keyed by pure intron chains "
                      "(the tested path %s, without terminal vertices): the lookup can never succeed and a novel model duplicating a "
                      "reference intron chain is reported" % (src(c.left), paths))
@@ -404,15 +408,31 @@ def strand_table(prog, ctx, tag):
         if stub is None:
             raise AnalysisError("%s: call of count_canonical_sites not found" % name)
         params = [a.arg for a in f.args.args]
+        methods = prog.methods_of(prog.cls(GI, "StrandDetector"), inherited=True)
 
         def run(cf, cr, pa, pt):
-            args = ["<self>", "<introns>"] + ([pa, pt] if with_tails else [])
-            if len(params) != len(args):
+            args = []
+            for i_, pn in enumerate(params):              # arguments by parameter NAME (the order of the two tail flags may change)
+                if i_ < 2:
+                    args.append("<self>" if i_ == 0 else "<introns>")
+                elif with_tails and "polya" in pn.lower():
+                    args.append(pa)
+                elif with_tails and "polyt" in pn.lower():
+                    args.append(pt)
+                else:
+                    raise AnalysisError("%s: unexpected parameter %s" % (name, pn))
+            if len(args) != (4 if with_tails else 2):
                 raise AnalysisError("%s: unexpected signature %s" % (name, params))
-            try:
-                return staticeval.call_function(f, args, stubs={stub: (cf, cr)}, funcs=helpers)
-            except staticeval.NoEval as e:
-                raise AnalysisError("%s is not statically evaluable (%s)" % (name, e))
+            last = None
+            # the counter's result: a (forward, reverse) pair, or a table keyed by strand
+            for shape_ in ((cf, cr), {"+": cf, "-": cr, ".": 0}):
+                try:
+                    return staticeval.call_function(f, args, stubs={stub: shape_}, funcs=helpers, methods=methods)
+                except (TypeError, KeyError, IndexError, ValueError) as e:
+                    last = e
+                except staticeval.NoEval as e:
+                    raise AnalysisError("%s is not statically evaluable (%s)" % (name, e))
+            raise AnalysisError("%s is not statically evaluable (%s)" % (name, last))
         bad = None
         for cf, cr in ((0, 0), (1, 0), (0, 1), (2, 2), (3, 1), (1, 3)):
             for pa in ((False, True) if with_tails else (False,)):
